@@ -241,7 +241,7 @@ def run(facts, cg):
                     if not has_call(term, accessor):
                         finding('R-WIRE', b.q, 'scan-%s:%s' % (what.split()[0], facts.bodies[d].q.split('::')[-1]),
                                 '%s scans with a %s that is not the archive\'s own (%s)' % (facts.bodies[d].q, what, show(term)[:120]))
-                    elif arch_for(out_arch, out_archs, b, bi) is not None and accessor_receiver(b, t['args'][pi], accessor) != arch_for(out_arch, out_archs, b, bi):
+                    elif arch_for(out_arch, out_archs, b, bi) is not None and accessor_receiver(b, t['args'][pi], accessor) not in (None, arch_for(out_arch, out_archs, b, bi)):
                         finding('R-WIRE', b.q, 'scan-other-archive:%s' % facts.bodies[d].q.split('::')[-1], '%s uses the %s of a different archive value' % (facts.bodies[d].q, what))
             # chunk_stream(archive, output.chunks())
             for pi_a in sorted(param_sources(facts, T, d, CHUNK_STREAM, 0)):
@@ -329,8 +329,10 @@ def run(facts, cg):
                     if t['k'] == 'switch':
                         ct = simplify(T.of_operand(b, t['op']))
                         # the dispatch on what `next()` gave: its None edge is the regular way out
-                        if isinstance(ct, tuple) and ct[0] == 'discr' and any(n_[0] in ('call', 'await') and ('next' in str(n_[1]) or n_[0] == 'await') for n_ in walk(ct)) and \
-                                not any(n_[0] == 'variant' and n_[1] not in ('Ready',) for n_ in walk(ct)):
+                        subj = ct[1] if isinstance(ct, tuple) and ct[0] == 'discr' else None
+                        if isinstance(subj, tuple) and subj[0] == 'field' and isinstance(subj[1], tuple) and subj[1][0] == 'variant' and subj[1][1] == 'Ready':
+                            subj = subj[1][2]
+                        if isinstance(subj, tuple) and (subj[0] == 'await' or (subj[0] == 'call' and subj[1].split('::')[-1] in ('next', 'try_next', 'poll_next', 'poll_next_unpin'))):
                             continue
                     if t['k'] in ('yield',):
                         continue
@@ -430,6 +432,12 @@ def run(facts, cg):
                         pb_ = b.base_of(pt['args'][0])
                         if pb_ and not pb_[1] and find(pb_[0]) == find(lb[0]):
                             pushed.append(simplify(T.resolve_env(simplify(T.of_operand(b, pt['args'][1])))))
+            if not pushed:
+                # the list built in a helper and handed back inside a tuple: whatever is pushed onto a list of ranges in this body
+                for pbi, pt in b.calls():
+                    if 'q' in pt['callee'] and callee_q(pt).endswith(('Vec::push', 'Vec::extend', 'Vec::extend_from_slice')) and len(pt['args']) == 2 and \
+                            pt['args'][0]['k'] in ('copy', 'move') and 'ChunkOffset' in b.lty(pt['args'][0]['pl']['l']).get('s', ''):
+                        pushed.append(simplify(T.resolve_env(simplify(T.of_operand(b, pt['args'][1])))))
             if pushed:
                 term = ('tuple', [term] + pushed)
             fields = {n_[2] for n_ in walk(term) if n_[0] == 'field' and isinstance(n_[2], str)}
